@@ -354,6 +354,9 @@ class InconMachine(StoreMachine):
                 if not F.close_e(wt.get(k), gt.get(k), 9):
                     bad('timing %s %r read back as %r' % (k, wt.get(k), gt.get(k)), 'timing')
 
+    def o6_cfg(self, cfg):
+        return dict(cfg, reset=False)        # the timing record is part of the model in memory
+
     def cfg_fp(self, cfg):
         return (cfg['reset'], cfg['nvar'])
 
